@@ -1,6 +1,7 @@
 """C15 - hierarchical clustering: a partition built from monotone, bounded merges."""
 import itertools
 import json
+import os
 
 from harness import build, core, tlc
 from harness.dtwfamily import classify
@@ -32,9 +33,10 @@ def items(ctx):
         for _ in range(rng.randint(1, 4)):
             kind = rng.choice(["hier", "hier", "hier", "tree"])
             fits.append({"kind": kind, "source": "matrix", "matrix": rng.choice([0, 0, 1]),
-                         "maxdist": rng.choice([-1, -1, 1, 2, 3]), "swap": rng.random() < 0.3,
+                         "maxdist": rng.choice([-1, -1, 0, 1, 2, 3]), "swap": rng.random() < 0.3,
                          "order": rng.choice([None, None, "last"]), "reuse": rng.random() < 0.6,
-                         "exact": rng.random() < 0.4})
+                         "exact": rng.random() < 0.4, "triu_false": rng.random() < 0.25,
+                         "tree_maxdist": rng.random() < 0.5})
         finite = all(m[r][c] >= 0 for r in range(n) for c in range(r + 1, n))
         if finite:
             fits.append({"kind": "linkage", "source": "matrix", "matrix": 0, "maxdist": -1,
@@ -52,7 +54,8 @@ def items(ctx):
         for _f in range(rng.randint(1, 3)):
             fits.append({"kind": rng.choice(["hier", "hier", "tree", "linkage"]),
                          "source": rng.choice(["dtw", "dtw_fast"]), "matrix": rng.choice([0, 1]),
-                         "maxdist": rng.choice([-1, -1, 2, 5]), "swap": False, "order": None,
+                         "maxdist": rng.choice([-1, -1, 0, 2, 5]), "swap": False, "order": None,
+                         "triu_false": rng.random() < 0.25, "tree_maxdist": rng.random() < 0.5,
                          "reuse": rng.random() < 0.5, "window": rng.choice([0, 0, 2]),
                          "method": "complete", "exact": rng.random() < 0.4, "only_triu": rng.random() < 0.4})
         out.append({"n": n, "matrices": [], "series": sers, "fits": fits})
@@ -82,7 +85,8 @@ def _canary(rec):
 
 def judge(ctx, src, its):
     ctx.log("running %d clustering histories" % len(its))
-    outs = core.pool_map(src, "harness.hx", "run_c15", its, chunksize=20)
+    outs = core.pool_map(src, "harness.hx", "run_c15", its, chunksize=20,
+                         env={"VERIF_ITEM_TIMEOUT": os.environ.get("VERIF_ITEM_TIMEOUT", "30")})
     records, by_id = [], {}
     for it, o in zip(its, outs):
         if o.get("crashed"):
